@@ -402,6 +402,51 @@ theorem C08_key_address (env : Env) (net : Network) (sec : Bytes) (h20 : ∀ m, 
   · simp only [bip84Address, forScript, infoForScript_std _ w2, bind, Except.bind, forScriptInfo]
   · simp only [bip49Address, forInfo_std _ w2, forP2s, forScript, infoForScript_std _ w3, bind, Except.bind, forScriptInfo]
 
+/-! ## one `parseable_str` object, several networks -/
+
+/-- a slot is absent or holds the decoder's own answer -/
+def PsCache.Ok (env : Env) (text : String) (c : PsCache) : Prop :=
+  (c.b58 = none ∨ c.b58 = some (env.b58cDec text)) ∧ (c.bech = none ∨ c.bech = some (env.bech32Parse text))
+
+theorem cachedEnv_eq (env : Env) (text : String) (c : PsCache) (h : c.Ok env text) : cachedEnv env text c = env := by
+  obtain ⟨h1, h2⟩ := h
+  cases env with
+  | mk enc dec seg bech h160 sha =>
+    simp only [cachedEnv, Env.mk.injEq, true_and, and_true]
+    constructor
+    · funext s
+      split
+      · rename_i hs; subst hs
+        rcases h1 with h1 | h1 <;> simp [h1]
+      · rfl
+    · funext s
+      split
+      · rename_i hs; subst hs
+        rcases h2 with h2 | h2 <;> simp [h2]
+      · rfl
+
+theorem fill_ok (env : Env) (text : String) (c : PsCache) (h : c.Ok env text) : (c.fill env text).Ok env text := by
+  obtain ⟨h1, h2⟩ := h
+  constructor
+  · right; rcases h1 with h1 | h1 <;> simp [PsCache.fill, h1]
+  · right; rcases h2 with h2 | h2 <;> simp [PsCache.fill, h2]
+
+theorem historyRun_spec {σ α : Type} (env : Env) (text : String) (step : Env → σ → α) (steps : List σ) :
+    ∀ c : PsCache, c.Ok env text → historyRun env text step c steps = steps.map (step env) := by
+  induction steps with
+  | nil => intro c _; rfl
+  | cons s ss ih =>
+    intro c h
+    simp only [historyRun, List.map_cons, cachedEnv_eq env text c h, ih _ (fill_ok env text c h)]
+
+/-- ★ a parser's answer does not depend on which networks (or which other entry points) were asked about the same
+`parseable_str` object before: whatever sequence of address-family calls, on whatever networks, is made on one shared
+object, each answer is the answer the same call gives on a fresh string -/
+theorem C08_parse_history_network_independent (env : Env) (text : String) (steps : List (Network × String)) :
+    historyRun env text (fun e (st : Network × String) => parseAddrEntry e st.1 st.2 text) PsCache.empty steps =
+      steps.map (fun st => parseAddrEntry env st.1 st.2 text) :=
+  historyRun_spec env text _ steps PsCache.empty ⟨Or.inl rfl, Or.inl rfl⟩
+
 /-! ## key objects over time: the caches are transparent -/
 
 /-- a cache slot is empty or holds the hash of the matching SEC form -/
